@@ -248,7 +248,7 @@ def run_property(pid, tier, seed):
     bounded = None
     if any(m.startswith(('anchor-lost', 'tool-limit')) for m in inconclusive) and not violations and spec.get('replay'):
         rp = spec['replay']
-        keys = sorted(set(rp.values())) if isinstance(rp, dict) else [rp]
+        keys = sorted(set(rp.values()) | set(spec.get('bounded_extra', []))) if isinstance(rp, dict) else sorted(set([rp]) | set(spec.get('bounded_extra', [])))
         bounded = {'keys': keys, 'found': None, 'bounds': {k: props.REPLAY_BOUNDS.get(k, '') for k in keys}}
         for key in keys:
             try:
@@ -274,7 +274,7 @@ def run_property(pid, tier, seed):
     crosscheck = None
     if spec.get('replay') and not violations and bounded is None and not os.environ.get('VERIF_NO_BOUNDED'):
         rp = spec['replay']
-        keys = sorted(set(rp.values())) if isinstance(rp, dict) else [rp]
+        keys = sorted(set(rp.values()) | set(spec.get('bounded_extra', []))) if isinstance(rp, dict) else sorted(set([rp]) | set(spec.get('bounded_extra', [])))
         crosscheck = {'label': 'bounded: NOT counted in obligations/discharged', 'bounds': {k: props.REPLAY_BOUNDS.get(k, '') for k in keys}}
         for key in keys:
             cex, logs = None, []
